@@ -13,6 +13,14 @@ def run(tier, v, wd, replay=None):
     v.add_tlc(r)
     repo = vlib.scratch_repo(wd, "real")
     run_vectors(v, wd, repo, "./control/", "TestVerifC19Keys", infile, timeout=900, outname="c19_keys.json")
+    # prefix keys: Cidr.tla's LpmKey (prefix length in the 128-bit space, 16 data bytes) against cidrToBpfLpmKey, byte by byte, and
+    # against a real kernel LPM trie written with those keys (the rule-program part of the C12 harness is switched off here)
+    pfile = os.path.join(wd.path, "c19_lpm.ndjson")
+    r = vlib.tlc(wd, "Cidr", "Cidr_mc.cfg", emit_to=pfile, timeout=1500)
+    if r.violated:
+        raise vlib.Infra("Cidr.tla: %s violated in the model" % r.violated)
+    v.add_tlc(r)
+    run_vectors(v, wd, repo, "./control/", "TestVerifC12", pfile, env={"VERIF_C12_RULE_EVERY": "1000000000"}, timeout=1500, outname="c19_lpm.json")
     layouts(tier, v, wd, repo)
     v.assumptions += ["the kernel's choice of connectivity slot is observed through the verdict of the real tc program; DNS-UDP slots are never read by the datapath (port 53 always passes) and are compared against the formula only"]
 
